@@ -1259,13 +1259,26 @@ class MiniInt:
                     "/": lambda: int(x / y) if y else 0, "%": lambda: x - int(x / y) * y if y else 0}[op]()
         if k == "CompoundAssignOperator":
             tgt = strip(kids(n)[0])
-            x, y = env[tgt["declId"]], self.expr(kids(n)[1], env, depth)
             op = n.get("op", "")[:-1]
-            env[tgt["declId"]] = {"|": x | y, "&": x & y, "+": x + y, "-": x - y, "^": x ^ y, "*": x * y}[op]
+            fn_ = {"|": lambda x, y: x | y, "&": lambda x, y: x & y, "+": lambda x, y: x + y, "-": lambda x, y: x - y, "^": lambda x, y: x ^ y,
+                   "*": lambda x, y: x * y, "/": lambda x, y: x / y}[op]
+            if tgt["k"] == "DeclRefExpr" and ("ref", tgt.get("declId")) in env:
+                tgt = strip(env[("ref", tgt["declId"])])
+            if tgt["k"] != "DeclRefExpr" or tgt.get("declId") not in env:
+                # element / member of modelled storage: read through the atoms, written through the store hook
+                x, y = self.expr(tgt, env, depth), self.expr(kids(n)[1], env, depth)
+                v = fn_(x, y)
+                if self.store is None or not self.store(render(tgt).replace(" ", ""), tgt, v, env):
+                    raise AnalysisBroken("MiniInt: compound assignment to `%s` outside the fragment" % render(tgt)[:60])
+                return v
+            x, y = env[tgt["declId"]], self.expr(kids(n)[1], env, depth)
+            env[tgt["declId"]] = fn_(x, y)
             return env[tgt["declId"]]
         if k == "ConditionalOperator":
             c, a_, b_ = kids(n)
             return self.expr(a_ if self.expr(c, env, depth) else b_, env, depth)
+        if k in ("InitListExpr", "ImplicitValueInitExpr", "CXXScalarValueInitExpr") and len(kids(n)) <= 1:
+            return self.expr(kids(n)[0], env, depth) if kids(n) else 0          # `T v {};` / `T v {e};`
         if k in ("CStyleCastExpr", "CXXStaticCastExpr", "CXXFunctionalCastExpr", "CXXReinterpretCastExpr") and kids(n):
             return self.expr(kids(n)[0], env, depth)
         if k == "CXXThrowExpr":
